@@ -410,3 +410,28 @@ func sibOuter(v ssa.Value, d int) string {
 	}
 	return fmt.Sprintf("%T", v)
 }
+
+// regionOutcomes enumerates, for every cut point of fn (the entry and each loop header), all paths to the next cut
+// point, return or panic; the same decomposition sibTables uses, for rules that must not care whether a test sits
+// inside a loop or after it.
+func regionOutcomes(fn *ssa.Function, mk func() *e6Interp, maxRuns int) ([]*e6Outcome, string) {
+	headers := map[*ssa.BasicBlock]bool{}
+	starts := []*ssa.BasicBlock{fn.Blocks[0]}
+	for _, lp := range naturalLoops(fn) {
+		if !headers[lp.Header] {
+			headers[lp.Header] = true
+			if lp.Header != fn.Blocks[0] {
+				starts = append(starts, lp.Header)
+			}
+		}
+	}
+	var all []*e6Outcome
+	for _, st := range starts {
+		outs, why := e6Enumerate(mk, st, nil, headers, maxRuns)
+		if why != "" {
+			return all, why
+		}
+		all = append(all, outs...)
+	}
+	return all, ""
+}
